@@ -53,6 +53,44 @@ def run(chk: Check, proj: Project) -> None:
     s3(chk, proj, w)
     s4(chk, proj, w)
     s5_merge_repeated(chk, proj, w)
+    s6_pipeline(chk, proj, w)
+
+
+def s6_pipeline(chk: Check, proj: Project, w) -> None:
+    chk.rule("S6", "html_attrs post-processing order: repeated keywords are merged BEFORE aggregate keys (`attrs:class=`) are folded into dicts (folding assigns, so a repeat would overwrite); render_to_response forwards every argument it shares with render (escape_slots_content among them); mappings are spread by the Mapping ABC (shared with C11-S6)")
+    m, f = proj.func("util.template_tag", "resolve_params")
+    chk.analysed(fkey(m, f))
+    mg = [c for c in calls(f, "merge_repeated_kwargs")]
+    ag = [c for c in calls(f, "process_aggregate_kwargs")]
+    if len(mg) != 1 or len(ag) != 1:
+        chk.undecided("S6", "util.template_tag:resolve_params:merge-before-aggregate", m.loc(f), f"{len(mg)} merge / {len(ag)} aggregate calls")
+    else:
+        ok = mg[0].lineno < ag[0].lineno and isinstance(enclosing_stmt(ag[0]), ast.Assign) and enclosing_stmt(ag[0]) in f.body
+        chk.ob("S6", "util.template_tag:resolve_params:merge-before-aggregate", m.loc(ag[0]), ok,
+               "merge_repeated_kwargs runs before process_aggregate_kwargs" if ok else
+               "aggregate keys are folded before repeated keywords are merged: `attrs:class=\"a\" attrs:class=\"b\"` becomes a plain assignment into the nested dict and renders class=\"b\" instead of class=\"a b\"")
+    cm, rr = proj.func("component", "Component.render_to_response")
+    _cm2, rd = proj.func("component", "Component.render")
+    chk.analysed(fkey(cm, rr))
+    inner = [c for c in calls(rr) if isinstance(c.func, ast.Attribute) and c.func.attr == "render" and len(c.keywords) >= 4]
+    if len(inner) != 1:
+        chk.undecided("S6", "component:Component.render_to_response:forwards-shared-arguments", cm.loc(rr), f"{len(inner)} inner render calls")
+    else:
+        shared = [p_ for p_ in params(rr) if p_ in params(rd) and p_ not in ("cls", "self")]
+        missing = []
+        for p_ in shared:
+            v = kwarg(inner[0], p_)
+            if v is None or not ((isinstance(v, ast.Name) and v.id == p_) or (p_ == "render_dependencies" and isinstance(v, ast.Constant))):
+                if p_ == "render_dependencies" and v is None:
+                    continue
+                missing.append(p_)
+        chk.ob("S6", "component:Component.render_to_response:forwards-shared-arguments", cm.loc(inner[0]), not missing,
+               f"all of {shared} are forwarded to render() by name" if not missing else
+               f"render_to_response() does not forward {missing} to render(): render_to_response(..., escape_slots_content=False) still HTML-escapes the slot content (render falls back to its default)")
+    from . import C11
+
+    sub_m = proj.mod("util.template_tag")
+    chk.borrow("S6", "html_attrs post-processing order; forwarding; Mapping ABC (shared with C11-S6)", lambda sub: C11.s6(sub, proj, sub_m))
 
 
 def s5_merge_repeated(chk: Check, proj: Project, w) -> None:
